@@ -14,51 +14,81 @@ Definition C15_holds (skip : bool) (m : msg) (o : obs) : Prop :=
   (ob_err o = true -> ob_src_failed o = true) /\
   (forall snap ref, ob_startline o = Some (snap, ref) -> snap = ref).
 
+(* one lemma per clause the driver can report *)
+Lemma forwarded_ok_iff m o :
+  forwarded_ok m o = true <-> ob_after o = m /\ ob_fwd_same o = true.
+Proof. unfold forwarded_ok. now rewrite andb_true_iff, msg_eqb_eq. Qed.
+
+Lemma sections_ok_iff o :
+  sections_ok o = true <->
+  (forall h b t full, ob_sections o = Some (h, b, t, full) ->
+     h ++ b ++ t = full /\ exists p, h = p ++ crlf ++ crlf).
+Proof.
+  unfold sections_ok. destruct (ob_sections o) as [[[[h b] t] full]|].
+  - rewrite andb_true_iff, bytes_eqb_eq, ends_with_iff. split.
+    + intros H h' b' t' f' E. injection E as <- <- <- <-. exact H.
+    + intros H. now apply H.
+  - split; [discriminate | reflexivity].
+Qed.
+
+Lemma reparse_ok_iff m o :
+  reparse_ok m o = true <->
+  (forall r, ob_reparse o = Some r -> option_map canon r = Some (canon m)).
+Proof.
+  unfold reparse_ok. destruct (ob_reparse o) as [r|].
+  - rewrite (opt_eqb_eq msg_eqb msg_eqb_eq). split.
+    + intros H r' E. injection E as <-. exact H.
+    + intros H. now apply H.
+  - split; [discriminate | reflexivity].
+Qed.
+
+Lemma skip_ok_iff skip o :
+  skip_ok skip o = true <-> (skip = true -> ob_records o = 0%nat).
+Proof.
+  unfold skip_ok. destruct skip.
+  - rewrite Nat.eqb_eq. split; auto.
+  - split; [discriminate | reflexivity].
+Qed.
+
+Lemma startline_ok_iff o :
+  startline_ok o = true <->
+  (forall snap ref, ob_startline o = Some (snap, ref) -> snap = ref).
+Proof.
+  unfold startline_ok. destruct (ob_startline o) as [[a b]|].
+  - rewrite bytes_eqb_eq. split.
+    + intros H a' b' E. injection E as <- <-. exact H.
+    + intros H. now apply H.
+  - split; [discriminate | reflexivity].
+Qed.
+
+Lemma error_clause_iff o :
+  (negb (ob_err o) || ob_src_failed o)%bool = true <-> (ob_err o = true -> ob_src_failed o = true).
+Proof.
+  destruct (ob_err o), (ob_src_failed o); cbn; split; intros H; try reflexivity; try discriminate;
+    try (intros; discriminate). now specialize (H eq_refl).
+Qed.
+
 Lemma c15_ok_iff skip m o : c15_ok skip m o = true <-> C15_holds skip m o.
 Proof.
-  unfold c15_ok, C15_holds, forwarded_ok, sections_ok, reparse_ok, skip_ok, startline_ok.
-  rewrite !andb_true_iff, msg_eqb_eq.
-  assert (He : (negb (ob_err o) || ob_src_failed o)%bool = true <->
-               (ob_err o = true -> ob_src_failed o = true)).
-  { destruct (ob_err o), (ob_src_failed o); cbn; split; intros H; try reflexivity; try discriminate;
-      try (intros; discriminate). now specialize (H eq_refl). }
-  assert (Hs : match ob_sections o with
-               | Some (h, b, t, full) => bytes_eqb (h ++ b ++ t) full && ends_with (crlf ++ crlf) h
-               | None => true
-               end = true <->
-               (forall h b t full, ob_sections o = Some (h, b, t, full) ->
-                  h ++ b ++ t = full /\ exists p, h = p ++ crlf ++ crlf)).
-  { destruct (ob_sections o) as [[[[h b] t] full]|].
-    - rewrite andb_true_iff, bytes_eqb_eq, ends_with_iff. split.
-      + intros H h' b' t' f' E. injection E as <- <- <- <-. exact H.
-      + intros H. now apply H.
-    - split; [discriminate | reflexivity]. }
-  assert (Hr : match ob_reparse o with
-               | Some r => opt_eqb msg_eqb (option_map canon r) (Some (canon m))
-               | None => true
-               end = true <->
-               (forall r, ob_reparse o = Some r -> option_map canon r = Some (canon m))).
-  { destruct (ob_reparse o) as [r|].
-    - rewrite (opt_eqb_eq msg_eqb msg_eqb_eq). split.
-      + intros H r' E. injection E as <-. exact H.
-      + intros H. now apply H.
-    - split; [discriminate | reflexivity]. }
-  assert (Hk : (if skip then Nat.eqb (ob_records o) 0 else true) = true <->
-               (skip = true -> ob_records o = 0%nat)).
-  { destruct skip.
-    - rewrite Nat.eqb_eq. split; auto.
-    - split; [discriminate | reflexivity]. }
-  assert (Hl : match ob_startline o with
-               | Some (snap, ref) => bytes_eqb snap ref
-               | None => true
-               end = true <->
-               (forall snap ref, ob_startline o = Some (snap, ref) -> snap = ref)).
-  { destruct (ob_startline o) as [[a b]|].
-    - rewrite bytes_eqb_eq. split.
-      + intros H a' b' E. injection E as <- <-. exact H.
-      + intros H. now apply H.
-    - split; [discriminate | reflexivity]. }
-  rewrite Hs, Hr, Hk, Hl, He. tauto.
+  unfold c15_ok, C15_holds.
+  rewrite !andb_true_iff, forwarded_ok_iff, sections_ok_iff, reparse_ok_iff, skip_ok_iff,
+    error_clause_iff, startline_ok_iff. tauto.
+Qed.
+
+(* a failing verdict names a clause of the property that is false on the observation *)
+Lemma c15_not_ok_names_a_clause skip m o :
+  c15_ok skip m o = false ->
+  forwarded_ok m o = false \/ sections_ok o = false \/ reparse_ok m o = false \/
+  skip_ok skip o = false \/ (ob_err o = true /\ ob_src_failed o = false) \/ startline_ok o = false.
+Proof.
+  unfold c15_ok. intros H.
+  destruct (forwarded_ok m o); [|now left].
+  destruct (sections_ok o); [|now right; left].
+  destruct (reparse_ok m o); [|now right; right; left].
+  destruct (skip_ok skip o); [|now right; right; right; left].
+  destruct (ob_err o), (ob_src_failed o); cbn in H;
+    try (right; right; right; right; right; exact H).
+  right; right; right; right; left. now split.
 Qed.
 
 (* what the model itself produces satisfies the property (the re-parse
@@ -106,6 +136,17 @@ Proof.
   destruct lg as [o|c| |ho dec]; try discriminate.
   rewrite !andb_true_iff, !negb_true_iff. intros [[[Hs Hr] Hc] [Ha Hcls]].
   exists c. repeat split; try assumption. intros ->. discriminate.
+Qed.
+
+Lemma logger_errors_iff lg skip cls m :
+  logger_errors lg skip cls m = true <->
+  exists c, lg = LHar c /\ skip = false /\ m_isreq m = false /\ capture_on c m = true
+            /\ compress_active m = true /\ cls <> DecOk.
+Proof.
+  split; [apply only_har_response_capture_errors|].
+  intros (c & -> & -> & Hr & Hc & Ha & Hcls).
+  unfold logger_errors, logger_errors_gen, decode_fails. rewrite Hr, Hc, Ha.
+  destruct cls; [congruence | reflexivity | reflexivity].
 Qed.
 
 Lemma skipped_never_errors legacy lg cls m : logger_errors_gen legacy lg true cls m = false.
